@@ -31,7 +31,9 @@ def matrix_jobs(tier, seed):
 
 def trigger_jobs(tier, seed):
     q = tier == "quick"
-    return matrix_jobs(tier, seed) + probe_jobs(tier, seed) + [Job("framework.props.triggers", "run_triggers",
+    from framework.props import bigrun
+
+    return matrix_jobs(tier, seed) + probe_jobs(tier, seed) + bigrun.jobs("C08", tier, seed + 4) + [Job("framework.props.triggers", "run_triggers",
                 {"seed": seed * 389 + k, "count": 8000 if q else 60000, "deadline_s": 80 if q else 600},
                 mode="interp" if k % 2 else "jit", timeout=300 if q else 1500, tag="triggers:%d" % k)
             for k in range(2 if q else 6)]
@@ -43,6 +45,9 @@ def main(tier, seed):
 
         triggers.aggregate(rep, [j for j in extra if j.func == "run_triggers"])
         proberun.aggregate(rep, [j for j in extra if j.func == "run_probe"])
+        from framework.props import bigrun
+
+        bigrun.aggregate(rep, [j for j in extra if j.func == "run_big"])
         triggers.aggregate_matrix(rep, [j for j in extra if j.func == "run_event_matrix"])
 
     rep = _modelprop.run(
